@@ -18,7 +18,7 @@ LEVEL_NOTE = ("Trusted: virtual clock (the reference run is reproducible, so 'af
               "encoding used by the recovery-budget model (shared with C08).")
 DESIGN_REF = "§5 C12"
 RULE = "case = (deterministic program, pause tick k); all k of each program are enumerated; distinct = hash of (program, k, state summary); non-trivial = pause state has queued or running work"
-REQUIRED_REACH = ["pause_point", "resumed_run", "result_compare", "state_compare", "retry_continuity_eval", "resumed_in_flight_retry", "fixed_point_eval", "fixed_point_with_waiter", "pause_with_collected", "queue_entry_roundtrip_eval", "queued_with_recovery_budget", "queued_with_retry_info", "resumed_run_snapshotted_again"]
+REQUIRED_REACH = ["pause_point", "resumed_run", "result_compare", "state_compare", "retry_continuity_eval", "resumed_in_flight_retry", "fixed_point_eval", "fixed_point_with_waiter", "pause_with_collected", "queue_entry_roundtrip_eval", "queued_with_recovery_budget", "queued_with_retry_info", "resumed_run_snapshotted_again", "typed_state_pause_point"]
 ASSUMPTIONS = ["workflows are deterministic and idempotent under re-execution by construction (no ctx.send_event, idempotent state writes)"]
 EXHAUSTIVE = False
 
@@ -34,6 +34,8 @@ def gen_case(seed):
 
     rnd = random.Random(seed)
     spec = gen.gen_detq(rnd) if rnd.random() < 0.4 else gen.gen_det(rnd)
+    if rnd.random() < 0.3:
+        spec["typed_state"] = True   # Context[VfState]: containers of a typed state model filled in place
     spec["sched_seed"] = seed
     return {"seed": seed, "family": "det", "spec": spec}
 
@@ -53,6 +55,8 @@ def check_pause(case, k, snap, ref, acc):
     tr0, _ = ref
     wit = {"case": {**case, "k": k}, "phase": "resumed"}
     acc.hit("pause_point")
+    if case["spec"].get("typed_state"):
+        acc.hit("typed_state_pause_point")
     ent = snap
     if ent["err"] is not None:
         acc.violation({"mech": "to_dict_raises"}, f"ctx.to_dict() at yield {k} raised {ent['err']}", wit)
